@@ -354,6 +354,7 @@ func genExtra(r *vlib.R, tier string, emit func(string)) {
 		}
 	}
 	// EffectiveError over its whole domain; the cache's expiry handling for every context shape
+	emit("eff new")
 	for _, e := range []string{"none", "deadline", "canceled"} {
 		for _, hd := range []string{"t", "f"} {
 			for _, past := range []string{"t", "f"} {
@@ -361,6 +362,7 @@ func genExtra(r *vlib.R, tier string, emit func(string)) {
 			}
 		}
 	}
+	emit("proc new")
 	kinds := []string{"live", "late", "expired", "lazy", "canceled"}
 	for i := 0; i < rounds*5; i++ {
 		emit(fmt.Sprintf("proc %s %s", vlib.Pick(r, []string{"leader", "follower"}), kinds[i%len(kinds)]))
